@@ -91,9 +91,16 @@ pub fn base_alphabet(seed: u64, hard: Option<&str>) -> Vec<Inp> {
 
 /// `--gap <exp>:<digits>`: one GAPS input handed over by the driver (the slow monitors must not parse the 13 MB list)
 fn gap_from_args(a: &Args) -> Vec<Inp> {
-    let Some(p) = a.rest.iter().position(|x| x == "--gap") else { return vec![] };
-    let Some((e, d)) = a.rest.get(p + 1).and_then(|s| s.split_once(':')) else { return vec![] };
-    vec![Inp { int: d.as_bytes().to_vec(), frac: vec![], exp: e.parse().unwrap_or(135) }]
+    // `--gap` may be given several times (one GAPS input, and a few LIMB-EDGE / RIPPLE / POW2-POS inputs)
+    let mut out = Vec::new();
+    for (p, x) in a.rest.iter().enumerate() {
+        if x == "--gap" {
+            if let Some((e, d)) = a.rest.get(p + 1).and_then(|s| s.split_once(':')) {
+                out.push(Inp { int: d.as_bytes().to_vec(), frac: vec![], exp: e.parse().unwrap_or(135) });
+            }
+        }
+    }
+    out
 }
 
 /// number of trailing alphabet entries that every history set includes
